@@ -256,6 +256,9 @@ def cases(draw, modes):
     case["max_hye"] = draw(st.sampled_from([None, "top", "top", "N"] if mode == "deg_only"
                                            else [None, None, "top", "N"]))
     case["top"] = min(N, max(top, 3))
+    if mode == "model" and draw(st.integers(0, 5)) == 0:
+        # a purely dyadic model: nothing for the chain of larger hyperedges to do
+        case["max_hye"] = "dyadic"
     return case
 
 
@@ -282,7 +285,7 @@ def resample_cases(draw):
 
 
 def max_hye_arg(case):
-    return {None: None, "top": case["top"], "N": case["N"]}[case["max_hye"]]
+    return {None: None, "top": case["top"], "N": case["N"], "dyadic": 2}[case["max_hye"]]
 
 
 # --------------------------------------------------------------------------
